@@ -58,7 +58,7 @@ std::size_t CaseInsensitiveSBufHash::operator()(const SBuf &) const noexcept { r
 #else
 #define T(quick, thorough) quick
 #endif
-#define MAXTXT 48
+#define MAXTXT 72
 
 static bool isListWs(unsigned char c) { return c == ' ' || c == '\t' || c == '\r' || c == '\n'; }  // skipped before an item
 static bool isCSpace(unsigned char c) { return c == ' ' || (c >= 9 && c <= 13); }                   // trimmed after an item
@@ -129,7 +129,7 @@ static int refQuoted(const unsigned char *s, const unsigned b, const unsigned e,
             const unsigned char x = s[i + 1];
             if (x == '\t') return 4;
             if (x <= 0x1f || x == 0x7f) return 0;
-            if (x == '"' || x == '\\') return 5;                 // 5: the two quoted-pairs that matter (decided by the caller)
+            if (x == '"' || x == '\\' || x == '\r' || x == '\n') return 5;   // 5: quoted-pairs Squid re-reads as unescaped (decided by the caller)
             out.add(x); i += 2; continue;
         }
         if (c == '\r' || c == '\n') {                             // a folded line inside the string: [CR] LF (SP|HT) reads as one space
@@ -189,7 +189,8 @@ static RefCc reference(const unsigned char *s, const unsigned len)
             // KNOWN-FINDING candidate: httpHeaderParseQuotedString() mishandles the quoted-pairs \" and \\ (after skipping the
             // backslash its scan for the end of the literal run stops at once on '"' or '\\' and nothing is appended): an escaped
             // quote ends the string (no-cache="a\"b" is taken as "a"; no-cache="a\" with no closing quote is accepted) and
-            // "a\\b" loses its backslash. Excluded: arguments containing \" or \\ inside the quotes.
+            // "a\\b" loses its backslash; a backslash before CR/LF is dropped and the line fold is honoured. Excluded: arguments
+            // containing a backslash followed by '"', '\\', CR or LF inside the quotes.
             if (k == 5) r.excluded = true;
             if (k == 1) { r.mask |= 1u << t; (t == CC_PRIVATE ? r.priv : r.nocache) = val; }
             else if (t == CC_PRIVATE) r.mask |= 1u << t;          // "to be safe ... always remember the 'private' part"
@@ -220,7 +221,7 @@ static bool sameString(const String &a, const String &b)
 }
 static uint64_t strHash(const String &a) { uint64_t h = a.size(); for (size_t i = 0; i < a.size(); ++i) h = h * 131 + (unsigned char)a.rawBuf()[i]; return h; }
 
-static void checkCc(const unsigned char *text, const unsigned len)
+static void checkCc(const unsigned char *text, const unsigned len, const bool allValues = false)
 {
     vf_quiet();
     for (unsigned i = 0; i < len; ++i) vf_assume(text[i] != 0);   // a header field value cannot contain NUL
@@ -246,14 +247,12 @@ static void checkCc(const unsigned char *text, const unsigned len)
     // ---- pack and parse again
     // one path per parsed numeric value: printing a symbolic number (64-bit division chain in the printf model) is what the solver
     // cannot afford; every value the symbolic digits can produce is still covered
-#ifndef VF_THOROUGH
-    {   // quick tier: the round trip is run for one-digit values, values from 2147483640 and absent (-1) only
+    if (!allValues) {   // the round trip is run for one-digit values, values from 2147483640 and absent (-1) only (c29_num thorough: every value)
         const int32_t v[5] = { cc.max_age, cc.s_maxage, cc.max_stale, cc.min_fresh, cc.stale_if_error };
         bool small = true;
         for (int k = 0; k < 5; ++k) small = small & (v[k] < 10 || v[k] >= 2147483640);
         if (!small) { vf_reach("some"); WITNESS_POINT(); return; }
     }
-#endif
     vf_concretize((uint32_t)cc.max_age); vf_concretize((uint32_t)cc.s_maxage); vf_concretize((uint32_t)cc.max_stale);
     vf_concretize((uint32_t)cc.min_fresh); vf_concretize((uint32_t)cc.stale_if_error);
     MemBuf mb;
@@ -287,10 +286,10 @@ extern "C" void c29_num(void)
     unsigned char in[MAXTXT]; unsigned n = 0;
     for (const char *p = "public, "; *p; ++p) in[n++] = *p;
     for (; *nm; ++nm) in[n++] = *nm;
-    in[n++] = T('=', vf_nondet_u8("b"));                           // thorough: '=' or not
+    in[n++] = '=';
     for (unsigned k = 0; k < 2; ++k) in[n++] = vf_nondet_u8("b");
     in[n] = 0;
-    checkCc(in, n);
+    checkCc(in, n, T(false, true));
 }
 // values around 2^31, 2^32 and 2^63
 FAMILY(c29_num_31, "max-age=214748364\x01\x01")
@@ -311,7 +310,7 @@ FAMILY(c29_case, "\x01ublic, no-\x01tore, x\x01")
 FAMILY(c29_other, T("immutable, \x01\x01, y\x01", "immutable, \x01\x01\x01, y=\x01"))
 #ifdef VF_THOROUGH
 FAMILY(c29_private5, "private=\"\x01\x01\x01\x01\x01")
-FAMILY(c29_list5, "only-if-cached\x01\x01\x01must-revalidate\x01\x01proxy-revalidate")
+FAMILY(c29_list5, "only-if-cached\x01\x01must-revalidate\x01\x01proxy-revalidate")
 #endif
 
 // short fully symbolic values
